@@ -58,6 +58,10 @@ def pool(tier):
     # parts beyond 2^53 for which float(n) / float(d) is NOT the correctly rounded quotient (conversion must not round twice)
     twice = [(9007199254740993, 7), (7, 9007199254740993), (-9007199254740995, 3), (9007199254740997, 9007199254740999), (10000000000000001, 9007199254740995)]
     fr += twice
+    if tier == "thorough":
+        # one word part next to one big part on either side, halves at the float midpoints around 2^53, a denominator at the word boundary
+        fr += [(2 ** 63 - 1, 2), (-(2 ** 63 + 1), 2), (1, 2 ** 63 - 1), (1, 2 ** 63), (-1, 2 ** 64 + 1), (2 ** 54 + 1, 2), (2 ** 54 + 3, 2),
+               (-(2 ** 54 + 1), 2), (2 ** 63 - 1, 2 ** 63 + 1), (10 ** 18 + 1, 10 ** 18), (1, 10), (-3, 10), (2, 3), (-5, 7)]
     if tier == "tiny":
         fr = [(1, 2), (-1, 2), (1, 3), (-7, 3), (3, 2), (2 ** 64 + 1, 2 ** 64), (-(10 ** 30 + 1), 10 ** 15 + 3)] + twice[:3]
     for n, d in fr:
@@ -70,6 +74,8 @@ def pool(tier):
         add(["q", str(2 ** 64), "1"], "(2^65/2)")
     fl = [0.0, -0.0, 0.5, -0.5, 0.1, 1.5, -1.5, 2.0, 3.0, 2.0 ** 53, 2.0 ** 53 + 2, 2.0 ** 63, 2.0 ** 64, 1e300, 5e-324,
           math.inf, -math.inf, math.nan]
+    if tier == "thorough":
+        fl += [-2.0, 0.3, 1.0, -1.0, 2.0 ** 52 + 0.5, -(2.0 ** 63), 2.0 ** 63 + 2048.0, 2.0 ** 62, 1.7976931348623157e308, -1e300, 1e-300, 2.2250738585072014e-308, -5e-324]
     if tier == "tiny":
         fl = [0.0, -0.0, 0.5, -1.5, 0.1, 3.0, 2.0 ** 53, 2.0 ** 64, 1e300, math.inf, -math.inf, math.nan]
     for x in fl:
